@@ -819,7 +819,14 @@ static void runMeta(const MetaCase& c, Ctx& ctx, const std::string& keyPrefix)
   // "by sample": each pair is credited to the sample that comes first in the order sorted along x, and the
   // running sums are not restarted per sample: samples sharing their first coordinate make the result depend on
   // the order of the samples (finding bysample:order)
-  if (c.bySample && c.kind == M_PERM && keyPrefix.empty()) key = "bysample:order";
+  bool finding = !keyPrefix.empty();
+  if (c.bySample && c.kind == M_PERM && keyPrefix.empty())
+  {
+    std::vector<double> x0;
+    for (int i = 0; i < D.n; i++) x0.push_back(D.X(i, 0));
+    std::sort(x0.begin(), x0.end());
+    if (std::adjacent_find(x0.begin(), x0.end()) != x0.end()) { key = "bysample:order"; finding = true; ctx.label("bysample:x-ties"); }
+  }
   if (asym && c.kind == M_VARPERM && keyPrefix.empty())
   { // heterotopic data: the cross-covariance depends on the order of the variables (finding cov:hetero-pairs)
     bool hetero = false;
@@ -829,7 +836,7 @@ static void runMeta(const MetaCase& c, Ctx& ctx, const std::string& keyPrefix)
       for (int v = 0; v < D.nvar; v++) if (!isNA(D.Z(i, v))) nd++;
       if (nd > 0 && nd < D.nvar) hetero = true;
     }
-    if (hetero) { key = "cov:hetero-pairs"; ctx.label("cov:hetero-varperm"); }
+    if (hetero) { key = "cov:hetero-pairs"; finding = true; ctx.label("cov:hetero-varperm"); }
   }
   // transformed problem
   Data T = D;
@@ -907,14 +914,14 @@ static void runMeta(const MetaCase& c, Ctx& ctx, const std::string& keyPrefix)
           size_t k1 = (size_t)(vrank(iv, jv) * nlt + s), k0 = (size_t)(vrank(oi, oj) * nlt + (rev ? nlt - 1 - s : s));
           double sw1 = E1.sw[(size_t)d1][k1], sw0 = src->sw[(size_t)d0][k0];
           std::string where = fmt("dir %d (orig %d) vars (%d,%d) slot %d/%d", d1, d0, iv, jv, s, nlt);
-          if (sw1 != sw0) { ctx.fail(key + ":sw", where + fmt(": sw %.17g after, %.17g before", sw1, sw0)); return; }
+          if (sw1 != sw0) { ctx.fail(finding ? key : key + ":sw", where + fmt(": sw %.17g after, %.17g before", sw1, sw0)); return; }
           if (!(sw1 > 0)) continue;
           double h1 = E1.hh[(size_t)d1][k1], h0 = src->hh[(size_t)d0][k0];
           if (rev) h0 = -h0;
-          if (!close(h1, h0, 1e-10, 1e-12 * D.L)) { ctx.fail(key + ":hh", where + fmt(": hh %.17g after, %.17g before", h1, h0)); return; }
+          if (!close(h1, h0, 1e-10, 1e-12 * D.L)) { ctx.fail(finding ? key : key + ":hh", where + fmt(": hh %.17g after, %.17g before", h1, h0)); return; }
           double g1 = E1.gg[(size_t)d1][k1], g0 = src->gg[(size_t)d0][k0];
           if (isNA(g1) && isNA(g0)) continue;
-          if (!close(g1, g0, rel, absf)) { ctx.fail(key + ":gg", where + fmt(": gg %.17g after, %.17g before", g1, g0)); return; }
+          if (!close(g1, g0, rel, absf)) { ctx.fail(finding ? key : key + ":gg", where + fmt(": gg %.17g after, %.17g before", g1, g0)); return; }
         }
       }
   }
@@ -961,5 +968,471 @@ static void runBySampleDirs(const MetaCase& c, Ctx& ctx)
   runMeta(c, ctx, "bysample:dirs");
 }
 VERIF_SUB(bysample_dirs, MetaCase, genBySampleDirs, runBySampleDirs);
+
+// =================================================================== vario_grid =========
+// DbGrid: grid algorithm (DirParam defined by grid increments) against the pairwise definition on the grid
+// nodes, and against the general algorithm with the matching direction / lag and tiny tolerances
+struct GridCase
+{
+  int ndim = 1, nvar = 1, calc = 0, npas = 2, multi = 0;
+  std::vector<int> nx;
+  std::vector<double> dx, x0, angles;
+  Data V;                // values, weights, selection (coordinates unused)
+  std::vector<int> ginc; // ndir*ndim grid increments (multi=0)
+  template<class A> void io(A& a)
+  {
+    a("ndim", ndim)("nvar", nvar)("calc", calc)("npas", npas)("multi", multi)("nx", nx)("dx", dx)("x0", x0)("angles", angles)("V", V)("ginc", ginc);
+  }
+};
+static GridCase genGrid()
+{
+  GridCase c;
+  c.calc = G::pick<int>({VG, VG, MADO, RODO, ORD4, COV, COV, COVNC, COVG, COVG, TR1, TR2, BINO});
+  c.ndim = G::i(1, 3);
+  int cap = c.ndim == 1 ? 60 : c.ndim == 2 ? 15 : 6;
+  int n = 1, mx = 0;
+  for (int k = 0; k < c.ndim; k++)
+  {
+    c.nx.push_back(G::sz(2, cap));
+    n *= c.nx.back(); mx = std::max(mx, c.nx.back());
+    c.dx.push_back((double)G::i(1, 16) / 4.);
+    c.x0.push_back(G::r(-1000, 1000, 8));
+  }
+  if (c.ndim >= 2 && G::pct(40))
+  {
+    c.angles.assign((size_t)c.ndim, 0.);
+    c.angles[0] = G::pick<double>({30., 90., -1.});
+    if (c.angles[0] < 0) c.angles[0] = G::u(0., 180.);
+  }
+  c.V.n = n; c.V.ndim = c.ndim;
+  int nvar = G::pick<int>({1, 1, 2, 3});
+  if ((c.calc == TR1 || c.calc == TR2 || c.calc == BINO) && nvar == 1) nvar = 2;
+  c.nvar = nvar;
+  genValues(c.V, nvar, true, true);
+  if (c.calc == COVG && !c.V.hasW)
+  { // the covariogram of a grid without weight variable reads the rank of a locator that does not exist
+    // (crash, finding covg-grid-noweight): a weight variable is always present here (its values are not used)
+    c.V.hasW = 1;
+    c.V.w.assign((size_t)n, 1.);
+  }
+  c.npas = G::i(1, std::min(9, mx + 1));
+  c.multi = G::pct(40);
+  if (!c.multi)
+  {
+    int ndir = G::i(1, 3);
+    for (int d = 0; d < ndir; d++)
+    {
+      std::vector<int> g((size_t)c.ndim);
+      bool zero = true;
+      for (auto& v : g) { v = G::pick<int>({0, 0, 1, 1, -1, 2, -2}); if (v) zero = false; }
+      if (zero) g[(size_t)G::i(0, c.ndim - 1)] = 1;
+      c.ginc.insert(c.ginc.end(), g.begin(), g.end());
+    }
+  }
+  return c;
+}
+static void runGrid(const GridCase& c, Ctx& ctx)
+{
+  resetGlobals(c.ndim);
+  int nd = c.ndim, n = c.V.n, nvar = c.nvar;
+  bool asym = isAsym(c.calc);
+  // library grid
+  int ncol = nvar + (c.V.hasW ? 1 : 0) + (c.V.hasSel ? 1 : 0);
+  VectorDouble tab((size_t)ncol * (size_t)n);
+  VectorString names, zn;
+  int cc = 0;
+  for (int v = 0; v < nvar; v++, cc++)
+  {
+    names.push_back("v" + std::to_string(v + 1)); zn.push_back(names.back());
+    for (int i = 0; i < n; i++) tab[(size_t)cc * n + i] = c.V.Z(i, v);
+  }
+  if (c.V.hasW) { names.push_back("wgt"); for (int i = 0; i < n; i++) tab[(size_t)cc * n + i] = c.V.w[(size_t)i]; cc++; }
+  if (c.V.hasSel) { names.push_back("mask"); for (int i = 0; i < n; i++) tab[(size_t)cc * n + i] = c.V.sel[(size_t)i] ? 1. : 0.; cc++; }
+  ctx.at("grid:create");
+  std::unique_ptr<DbGrid> g(DbGrid::create(VectorInt(c.nx.begin(), c.nx.end()), VectorDouble(c.dx.begin(), c.dx.end()),
+                                           VectorDouble(c.x0.begin(), c.x0.end()), VectorDouble(c.angles.begin(), c.angles.end()),
+                                           ELoadBy::COLUMN, tab, names));
+  g->setLocators(zn, ELoc::Z);
+  if (c.V.hasW) g->setLocator("wgt", ELoc::W);
+  if (c.V.hasSel) g->setLocator("mask", ELoc::SEL);
+  // directions
+  std::vector<std::vector<int>> incs;
+  if (c.multi)
+    for (int k = 0; k < nd; k++) { std::vector<int> e((size_t)nd, 0); e[(size_t)k] = 1; incs.push_back(e); }
+  else
+    for (size_t d = 0; d * nd < c.ginc.size(); d++) incs.emplace_back(c.ginc.begin() + d * nd, c.ginc.begin() + (d + 1) * nd);
+  int ndir = (int)incs.size();
+  // coordinates of the nodes (as the library stores them), used by the general algorithm and its margins
+  Data D = c.V;
+  D.L = 1;
+  D.x.assign((size_t)n * nd, 0.);
+  for (int i = 0; i < n; i++)
+    for (int k = 0; k < nd; k++) D.x[(size_t)i * nd + k] = g->getCoordinate(i, k);
+  std::vector<DirC> dirs; // description of the same directions for the general algorithm
+  auto rankOf = [&](const std::vector<int>& ix) { int r = 0, m = 1; for (int k = 0; k < nd; k++) { if (ix[(size_t)k] < 0 || ix[(size_t)k] >= c.nx[(size_t)k]) return -1; r += m * ix[(size_t)k]; m *= c.nx[(size_t)k]; } return r; };
+  double maille = 1;
+  for (auto v : c.dx) maille *= v;
+  std::vector<double> wcell((size_t)n, maille);
+  Oracle O;
+  for (int d = 0; d < ndir; d++)
+  {
+    DirC dc;
+    dc.npas = c.npas;
+    double s2 = 0;
+    for (int k = 0; k < nd; k++) s2 += (incs[d][(size_t)k] * c.dx[(size_t)k]) * (incs[d][(size_t)k] * c.dx[(size_t)k]);
+    dc.dpas = std::sqrt(s2);
+    dc.toldis = 0.02; dc.tolang = 0.5;
+    // direction of the increment in the user's system: difference of the coordinates of two nodes
+    {
+      // grid rotation: node(i) = x0 + R * (i*dx): linear, so any two nodes separated by the increment give it;
+      // take it from the linear map evaluated through the unit steps (n may be too small to contain the increment)
+      dc.codir.assign((size_t)nd, 0.);
+      for (int k = 0; k < nd; k++)
+      {
+        if (!incs[d][(size_t)k]) continue;
+        // unit step along grid axis k: nodes 0 and e_k always exist (nx >= 2)
+        std::vector<int> e((size_t)nd, 0); e[(size_t)k] = 1;
+        int r1 = rankOf(e);
+        for (int q = 0; q < nd; q++) dc.codir[(size_t)q] += incs[d][(size_t)k] * (D.X(r1, q) - D.X(0, q));
+      }
+      normalize(dc.codir);
+    }
+    dirs.push_back(dc);
+    int nlt = asym ? 2 * c.npas + 1 : c.npas;
+    Acc A(nvar, nlt);
+    std::vector<int> ix((size_t)nd), jx((size_t)nd);
+    for (int i = 0; i < n; i++)
+    {
+      if (!D.active(i)) continue;
+      int rem = i;
+      for (int k = 0; k < nd; k++) { ix[(size_t)k] = rem % c.nx[(size_t)k]; rem /= c.nx[(size_t)k]; }
+      for (int ip = 1; ip < c.npas; ip++)
+      {
+        for (int k = 0; k < nd; k++) jx[(size_t)k] = ix[(size_t)k] + ip * incs[d][(size_t)k];
+        int j = rankOf(jx);
+        if (j < 0 || !D.active(j)) continue;
+        LD ww = c.calc == COVG ? (LD)maille : (LD)D.W(i) * (LD)D.W(j);
+        LD dist = (LD)ip * dc.dpas;
+        for (int iv = 0; iv < nvar; iv++)
+          for (int jv = 0; jv <= iv; jv++)
+          {
+            int r = vrank(iv, jv);
+            double zif = D.Z(i, iv), zit = D.Z(j, iv), zjf = D.Z(i, jv), zjt = D.Z(j, jv);
+            if (!asym)
+            {
+              if (isNA(zif) || isNA(zit) || isNA(zjf) || isNA(zjt)) continue;
+              A.add(r, ip, ww, dist, summand(c.calc, zif, zit, zjf, zjt));
+            }
+            else
+            {
+              int sp = c.npas + 1 + ip, sm = c.npas - 1 - ip;
+              if (!isNA(zif) && !isNA(zjt)) A.swN[(size_t)(r * nlt + sp)] += ww;
+              if (!isNA(zit) && !isNA(zjf)) A.swN[(size_t)(r * nlt + sm)] += ww;
+              if (isNA(zif) || isNA(zit)) continue; // library convention, see cov:hetero-pairs
+              if (!isNA(zjt)) A.add(r, sp, ww, dist, (LD)zif * zjt);
+              if (!isNA(zjf)) A.add(r, sm, ww, dist, (LD)zit * zjf);
+            }
+          }
+      }
+    }
+    O.dirs.push_back(finish(D, c.calc, c.npas, A, c.calc == COVG ? &wcell : nullptr));
+    const DirRes& R = O.dirs.back();
+    for (size_t k = 0; k < R.sw.size(); k++) if (R.sw[k] >= 0 && R.swN[k] != R.sw[k]) O.heteroDiffers = true;
+  }
+  labelData(ctx, D, dirs, c.calc);
+  ctx.label(c.multi ? "grid:createMultipleFromGrid" : "grid:grincr");
+  if (!c.angles.empty()) ctx.label("grid:rotated");
+  // grid algorithm
+  std::string key = std::string("grid:") + calcName(c.calc);
+  ctx.at(key);
+  std::unique_ptr<VarioParam> vp;
+  if (c.multi) vp.reset(VarioParam::createMultipleFromGrid(g.get(), c.npas));
+  else
+  {
+    vp.reset(new VarioParam());
+    for (auto& inc : incs)
+    {
+      std::unique_ptr<DirParam> dp(DirParam::createFromGrid(g.get(), c.npas, VectorInt(inc.begin(), inc.end())));
+      vp->addDir(*dp);
+    }
+  }
+  int ncolBefore = g->getColumnNumber();
+  std::unique_ptr<Vario> vg(Vario::computeFromDb(*vp, g.get(), calcOf(c.calc)));
+  if (!vg) { ctx.fail(key + ":error", "grid algorithm reports an error"); return; }
+  for (int d = 0; d < ndir; d++)
+    if (!cmpDir(ctx, *vg, d, O.dirs[(size_t)d], nvar, key, "grid algorithm")) return;
+  if (g->getColumnNumber() != ncolBefore) { ctx.fail(key + ":columns", fmt("the grid has %d columns after the calculation, %d before", g->getColumnNumber(), ncolBefore)); return; }
+  // general algorithm on the same nodes
+  if (c.calc != COVG)
+  {
+    bool margin = false;
+    for (auto& dc : dirs) forPairs(D, dc, asym, margin, [&](int, int, int, double) {});
+    if (margin) ctx.label("grid:general-skipped-margin");
+    else
+    {
+      std::string key2 = std::string("grid-general:") + calcName(c.calc);
+      ctx.at(key2);
+      std::unique_ptr<Vario> vgen = runVario(dirs, g.get(), c.calc, false, 1);
+      if (!vgen) { ctx.fail(key2 + ":error", "general algorithm on the grid reports an error"); return; }
+      for (int d = 0; d < ndir; d++)
+        if (!cmpDir(ctx, *vgen, d, O.dirs[(size_t)d], nvar, key2, "general algorithm on grid nodes")) return;
+    }
+  }
+  if (O.heteroDiffers) { ctx.label("cov:hetero-differs"); ctx.fail("cov:hetero-pairs", "cross-covariance drops the pairs (x,x+h) where z_i(x+h) is undefined (grid)"); return; }
+  ctx.nontrivial(countPopulated(O) >= 2 && (ndir >= 2 || nvar >= 2 || D.anyNA() || D.hasSel || !c.angles.empty()));
+  ctx.sig = Hash().add(sigOf(D, dirs, c.calc, c.multi)).add(c.ndim).add(n).h;
+}
+VERIF_SUB(vario_grid, GridCase, genGrid, runGrid);
+
+// =================================================================== vcloud =============
+// db_vcloud: per direction, number of pairs (accepted by the direction / bench / cylinder rules, both values
+// defined) whose (distance, half squared difference) falls in each cell of the cloud grid
+struct CloudCase
+{
+  Data D;
+  std::vector<DirC> dirs;
+  double lagmax = 1, varmax = 1;
+  int lagnb = 2, varnb = 2;
+  template<class A> void io(A& a) { a("D", D)("dirs", dirs)("lagmax", lagmax)("varmax", varmax)("lagnb", lagnb)("varnb", varnb); }
+};
+static inline bool nearCellEdge(double q) { double f = q + 0.5 - std::floor(q + 0.5); return f < 1e-6 || f > 1 - 1e-6; }
+static bool cloudMargin(const CloudCase& c, double mf)
+{
+  const Data& D = c.D;
+  double dx0 = c.lagmax / c.lagnb, dx1 = c.varmax / c.varnb;
+  for (int a = 0; a < D.n; a++)
+    for (int b = a + 1; b < D.n; b++)
+    {
+      double d2 = 0;
+      for (int k = 0; k < D.ndim; k++) d2 += (D.X(b, k) - D.X(a, k)) * (D.X(b, k) - D.X(a, k));
+      double q = std::sqrt(d2) / dx0, f = q + 0.5 - std::floor(q + 0.5);
+      if (f < mf * 1e-6 || f > 1 - mf * 1e-6) return true;
+      if (isNA(D.Z(a, 0)) || isNA(D.Z(b, 0))) continue;
+      double v = (D.Z(b, 0) - D.Z(a, 0)) * (D.Z(b, 0) - D.Z(a, 0)) / 2.;
+      q = v / dx1; f = q + 0.5 - std::floor(q + 0.5);
+      if (f < mf * 1e-6 || f > 1 - mf * 1e-6) return true;
+    }
+  return false;
+}
+static CloudCase genCloud()
+{
+  CloudCase c;
+  int ndim = G::i(1, 3);
+  Lattice lat = genPoints(c.D, G::sz(2, 80), ndim);
+  genValues(c.D, 1, false, true);
+  int ndir = G::i(1, 3);
+  for (int k = 0; k < ndir; k++) c.dirs.push_back(genDir(c.D, lat, false));
+  c.lagnb = G::i(1, 12); c.varnb = G::i(1, 12);
+  c.lagmax = c.D.L * G::lu(0.1, 2.);
+  double zlo = 1e300, zhi = -1e300;
+  for (auto z : c.D.z) if (!isNA(z)) { zlo = std::min(zlo, z); zhi = std::max(zhi, z); }
+  double zr = zhi > zlo ? zhi - zlo : 1.;
+  c.varmax = zr * zr * G::lu(0.05, 1.);
+  for (int it = 1; it <= 60 && cloudMargin(c, 3.); it++) { c.lagmax *= 1. + 7.3e-6 * it; c.varmax *= 1. + 5.9e-6 * it; }
+  return c;
+}
+static void runCloud(const CloudCase& c, Ctx& ctx)
+{
+  const Data& D = c.D;
+  resetGlobals(D.ndim);
+  labelData(ctx, D, c.dirs, VG);
+  int ndir = (int)c.dirs.size();
+  if (cloudMargin(c, 1.)) { ctx.inconclusive("pair-on-a-cell-edge"); return; }
+  double dx0 = c.lagmax / c.lagnb, dx1 = c.varmax / c.varnb;
+  std::vector<std::vector<double>> cnt((size_t)ndir, std::vector<double>((size_t)(c.lagnb * c.varnb), 0.));
+  long inside = 0;
+  for (int d = 0; d < ndir; d++)
+    for (int a = 0; a < D.n; a++)
+    {
+      if (!D.active(a)) continue;
+      for (int b = a + 1; b < D.n; b++)
+      {
+        if (!D.active(b)) continue;
+        Geom g = pairGeom(D, c.dirs[(size_t)d], a, b, false);
+        if (g.why & ~16) { ctx.inconclusive("pair-on-a-limit"); return; }
+        if (!g.ok) continue;
+        if (isNA(D.Z(a, 0)) || isNA(D.Z(b, 0))) continue;
+        double v = (D.Z(b, 0) - D.Z(a, 0)) * (D.Z(b, 0) - D.Z(a, 0)) / 2.;
+        int ix = (int)std::floor(g.d / dx0 + 0.5), iy = (int)std::floor(v / dx1 + 0.5);
+        if (ix < 0 || ix >= c.lagnb || iy < 0 || iy >= c.varnb) continue;
+        cnt[(size_t)d][(size_t)(ix + c.lagnb * iy)] += 1.;
+        inside++;
+      }
+    }
+  std::unique_ptr<Db> db = makeDb(D);
+  VarioParam vp = makeVP(c.dirs);
+  ctx.at("vcloud");
+  std::unique_ptr<DbGrid> g(db_vcloud(db.get(), &vp, c.lagmax, c.varmax, c.lagnb, c.varnb));
+  if (!g) { ctx.fail("vcloud:error", "db_vcloud returns no grid"); return; }
+  if (g->getSampleNumber() != c.lagnb * c.varnb) { ctx.fail("vcloud:size", fmt("cloud grid has %d cells, expected %d", g->getSampleNumber(), c.lagnb * c.varnb)); return; }
+  int ncol = g->getColumnNumber();
+  for (int d = 0; d < ndir; d++)
+  {
+    VectorDouble col = g->getColumnByColIdx(ncol - ndir + d);
+    for (int k = 0; k < c.lagnb * c.varnb; k++)
+    {
+      double e = cnt[(size_t)d][(size_t)k], got = col[(size_t)k];
+      bool okv = e == 0 ? (isNA(got) || got == 0) : got == e;
+      if (!okv) { ctx.fail("vcloud:count", fmt("dir %d cell (%d,%d): %.17g pairs reported, %.17g pairs by definition", d, k % c.lagnb, k / c.lagnb, got, e)); return; }
+    }
+  }
+  ctx.nontrivial(inside >= 2 && (ndir >= 2 || D.anyNA() || D.hasSel || c.dirs[0].tolang < 90));
+  ctx.sig = Hash().add(sigOf(D, c.dirs, VG, 77)).add(c.lagnb).add(c.varnb).h;
+}
+VERIF_SUB(vcloud, CloudCase, genCloud, runCloud);
+
+// =================================================================== vmap ===============
+// db_vmap: for each cell of the map centred on the origin, weight and mean of the estimator's summand over the
+// ordered pairs of samples whose separation vector falls in the cell
+struct VmapCase
+{
+  Data D; // points: coordinates used; grid: values only
+  int grid = 0, calc = 0, fft = 0;
+  std::vector<int> nx;      // grid only
+  std::vector<double> gdx;  // grid only
+  std::vector<int> nxx;
+  std::vector<double> dxx;  // points only
+  template<class A> void io(A& a) { a("D", D)("grid", grid)("calc", calc)("fft", fft)("nx", nx)("gdx", gdx)("nxx", nxx)("dxx", dxx); }
+};
+static bool vmapMargin(const VmapCase& c, double mf)
+{
+  const Data& D = c.D;
+  for (int a = 0; a < D.n; a++)
+    for (int b = a + 1; b < D.n; b++)
+      for (int k = 0; k < D.ndim; k++)
+      {
+        double q = (D.X(b, k) - D.X(a, k)) / c.dxx[(size_t)k], f = q + 0.5 - std::floor(q + 0.5);
+        if (std::fabs(q) > c.nxx[(size_t)k] + 1.5) continue;
+        if (f < mf * 1e-6 || f > 1 - mf * 1e-6) return true;
+      }
+  return false;
+}
+static VmapCase genVmapPts()
+{
+  VmapCase c;
+  c.calc = G::pick<int>({VG, VG, MADO, RODO, ORD4});
+  int ndim = G::i(2, 3);
+  genPoints(c.D, G::sz(2, 80), ndim);
+  genValues(c.D, G::pick<int>({1, 1, 2}), true, true);
+  for (int k = 0; k < ndim; k++) { c.nxx.push_back(G::i(1, 5)); c.dxx.push_back(c.D.L * G::lu(0.02, 0.3)); }
+  for (int it = 1; it <= 60 && vmapMargin(c, 3.); it++)
+    for (auto& v : c.dxx) v *= 1. + 7.3e-6 * it;
+  return c;
+}
+static VmapCase genVmapGrid()
+{
+  VmapCase c;
+  c.grid = 1;
+  int ndim = G::i(2, 3);
+  c.fft = G::pct(30);
+  c.calc = c.fft ? VG : G::pick<int>({VG, VG, MADO, RODO, ORD4});
+  int n = 1;
+  for (int k = 0; k < ndim; k++)
+  {
+    // FFT variant: an axis with a single node overflows VMap::_extract (crash, finding vmap-fft-flat-axis)
+    c.nx.push_back(G::sz(c.fft ? 2 : 1, ndim == 2 ? 10 : 5));
+    n *= c.nx.back();
+    c.gdx.push_back((double)G::i(1, 16) / 4.);
+    c.nxx.push_back(G::i(1, 5));
+  }
+  c.D.n = n; c.D.ndim = ndim;
+  genValues(c.D, G::pick<int>({1, 1, 2}), !c.fft, !c.fft);
+  return c;
+}
+static void runVmap(const VmapCase& c, Ctx& ctx)
+{
+  const Data& D = c.D;
+  int nd = D.ndim, nvar = D.nvar, nvp = nvar * (nvar + 1) / 2;
+  resetGlobals(nd);
+  ctx.label(std::string("calc:") + calcName(c.calc));
+  ctx.label(c.grid ? (c.fft ? "vmap:grid-fft" : "vmap:grid") : "vmap:points");
+  ctx.label(fmt("ndim:%d", nd)); ctx.label(fmt("nvar:%d", nvar));
+  if (D.anyNA()) ctx.label("data:NA");
+  if (D.hasW) ctx.label("data:weights");
+  if (D.hasSel) ctx.label("data:selection");
+  if (!c.grid && vmapMargin(c, 1.)) { ctx.inconclusive("pair-on-a-cell-edge"); return; }
+  int ncell = 1;
+  std::vector<int> nmap;
+  for (int k = 0; k < nd; k++) { nmap.push_back(2 * c.nxx[(size_t)k] + 1); ncell *= nmap.back(); }
+  std::vector<LD> nb((size_t)(nvp * ncell), 0), vs(nb), va(nb);
+  std::vector<int> ia((size_t)nd), ib((size_t)nd);
+  long offc = 0;
+  for (int a = 0; a < D.n; a++)
+  {
+    if (!D.active(a)) continue;
+    if (c.grid) { int rem = a; for (int k = 0; k < nd; k++) { ia[(size_t)k] = rem % c.nx[(size_t)k]; rem /= c.nx[(size_t)k]; } }
+    for (int b = 0; b < D.n; b++)
+    {
+      if (!D.active(b)) continue;
+      int cell = 0, m = 1;
+      bool out = false;
+      if (c.grid) { int rem = b; for (int k = 0; k < nd; k++) { ib[(size_t)k] = rem % c.nx[(size_t)k]; rem /= c.nx[(size_t)k]; } }
+      for (int k = 0; k < nd && !out; k++)
+      {
+        int q = c.grid ? ib[(size_t)k] - ia[(size_t)k] : (int)std::floor((D.X(b, k) - D.X(a, k)) / c.dxx[(size_t)k] + 0.5);
+        if (q < -c.nxx[(size_t)k] || q > c.nxx[(size_t)k]) out = true;
+        cell += m * (q + c.nxx[(size_t)k]); m *= nmap[(size_t)k];
+      }
+      if (out) continue;
+      LD ww = (LD)D.W(a) * (LD)D.W(b);
+      for (int iv = 0; iv < nvar; iv++)
+        for (int jv = 0; jv <= iv; jv++)
+        {
+          double zia = D.Z(a, iv), zib = D.Z(b, iv), zja = D.Z(a, jv), zjb = D.Z(b, jv);
+          if (isNA(zia) || isNA(zib) || isNA(zja) || isNA(zjb)) continue;
+          size_t k = (size_t)(vrank(iv, jv) * ncell + cell);
+          LD v = summand(c.calc, zia, zib, zja, zjb);
+          nb[k] += ww; vs[k] += ww * v; va[k] += ww * fabsl(v);
+          if (a != b) offc++;
+        }
+    }
+  }
+  // library
+  std::unique_ptr<Db> db;
+  if (!c.grid) db = makeDb(D);
+  else
+  {
+    int ncol = nvar + (D.hasW ? 1 : 0) + (D.hasSel ? 1 : 0), n = D.n, cc = 0;
+    VectorDouble tab((size_t)ncol * (size_t)n);
+    VectorString names, zn;
+    for (int v = 0; v < nvar; v++, cc++) { names.push_back("v" + std::to_string(v + 1)); zn.push_back(names.back()); for (int i = 0; i < n; i++) tab[(size_t)cc * n + i] = D.Z(i, v); }
+    if (D.hasW) { names.push_back("wgt"); for (int i = 0; i < n; i++) tab[(size_t)cc * n + i] = D.w[(size_t)i]; cc++; }
+    if (D.hasSel) { names.push_back("mask"); for (int i = 0; i < n; i++) tab[(size_t)cc * n + i] = D.sel[(size_t)i] ? 1. : 0.; cc++; }
+    DbGrid* gg = DbGrid::create(VectorInt(c.nx.begin(), c.nx.end()), VectorDouble(c.gdx.begin(), c.gdx.end()), VectorDouble(), VectorDouble(), ELoadBy::COLUMN, tab, names);
+    gg->setLocators(zn, ELoc::Z);
+    if (D.hasW) gg->setLocator("wgt", ELoc::W);
+    if (D.hasSel) gg->setLocator("mask", ELoc::SEL);
+    db.reset(gg);
+  }
+  std::string key = std::string(c.grid ? (c.fft ? "vmap-fft:" : "vmap-grid:") : "vmap-points:") + calcName(c.calc);
+  ctx.at(key);
+  std::unique_ptr<DbGrid> map(db_vmap(db.get(), calcOf(c.calc), VectorInt(c.nxx.begin(), c.nxx.end()),
+                                      c.grid ? VectorDouble() : VectorDouble(c.dxx.begin(), c.dxx.end()), 0, c.fft != 0));
+  if (!map) { ctx.fail(key + ":error", "db_vmap returns no grid"); return; }
+  if (map->getSampleNumber() != ncell) { ctx.fail(key + ":size", fmt("map has %d cells, expected %d", map->getSampleNumber(), ncell)); return; }
+  int ncolm = map->getColumnNumber();
+  double relv = c.fft ? 1e-7 : 1e-10;
+  for (int r = 0; r < nvp; r++)
+  {
+    VectorDouble var = map->getColumnByColIdx(ncolm - 2 * nvp + r), cnt = map->getColumnByColIdx(ncolm - nvp + r);
+    for (int k = 0; k < ncell; k++)
+    {
+      size_t q = (size_t)(r * ncell + k);
+      double e = (double)nb[q];
+      bool okn = c.fft ? std::fabs(cnt[(size_t)k] - e) <= 1e-6 * (1 + e) : cnt[(size_t)k] == e;
+      if (!okn) { ctx.fail(key + ":nb", fmt("variables #%d cell %d/%d: weight %.17g, pairwise definition %.17g", r, k, ncell, cnt[(size_t)k], e)); return; }
+      if (!(e > 0)) continue;
+      double ev = (double)(vs[q] / nb[q]), tol = relv * (double)std::max(fabsl(vs[q] / nb[q]), va[q] / nb[q]) + (c.fft ? 1e-9 : 0.);
+      if (!(std::fabs(var[(size_t)k] - ev) <= tol)) { ctx.fail(key + ":var", fmt("variables #%d cell %d/%d: value %.17g, pairwise definition %.17g", r, k, ncell, var[(size_t)k], ev)); return; }
+    }
+  }
+  ctx.nontrivial(offc >= 4);
+  Hash h;
+  h.add(c.grid).add(c.fft).add(c.calc).add(nd).add(nvar).add(D.n / 4).add(D.hasW).add(D.hasSel).add(D.anyNA() ? 1 : 0);
+  for (auto v : c.nxx) h.add(v);
+  ctx.sig = h.h;
+}
+VERIF_SUB(vmap_points, VmapCase, genVmapPts, runVmap);
+VERIF_SUB(vmap_grid, VmapCase, genVmapGrid, runVmap);
 
 VERIF_MAIN()
